@@ -1,36 +1,55 @@
 ------------------------------ MODULE MC_UdpAcks ------------------------------
 (***************************************************************************)
-(* Bounded state graphs of UdpAcks for edge replay.                        *)
-(*   Points   : range end points, Add(f, t) for f <= t in Points           *)
-(*   Combs    : initial states; c \in Combs starts from the c singleton    *)
-(*              ranges {2}, {4}, ... {2c} (c = 0: empty) so that the       *)
-(*              MaxAckSet cut-offs (50 numbers / 50 holes) are crossed     *)
-(*   Bound    : 0 = unbounded number of Adds (the state is the set),       *)
-(*              n > 0 = at most n Adds after the initial state             *)
-(* Node labels of the dumped graph carry prefix and ranges; Emit prints,    *)
+(* Bounded state graphs of UdpAcks for edge replay; one TLC run explores   *)
+(* several disjoint sub-graphs ("modes"), each given by                    *)
+(*   points : range end points, AddRangeOp(f, t) for f <= t in points      *)
+(*   combs  : initial states; c \in combs starts from the c singleton      *)
+(*            ranges {2}, {4}, ... {2c} (c = 0: empty) so that the         *)
+(*            MaxAckSet cut-offs (50 numbers / 50 holes) are crossed       *)
+(*   bound  : 0 = unbounded number of Adds (the state is the set),         *)
+(*            n > 0 = at most n Adds after the initial state               *)
+(* dense: every subset of 0..N.  comb: around 50 one-number ranges.        *)
+(* wide : ranges of more than 50 numbers behind a first range.             *)
+(* Node labels of the dumped graph carry prefix and ranges; Emit prints,   *)
 (* once per distinct state, the headers that must be built in that state.  *)
 (***************************************************************************)
 EXTENDS UdpAcks, Json
 
-CONSTANTS Points, Combs, Bound
+CONSTANT Modes         \* cfg: Modes <- ModesQuick | ModesThorough
 
-VARIABLE n
+ModesQuick ==
+  { [name |-> "dense", points |-> 0..8, combs |-> {0}, bound |-> 0],
+    [name |-> "comb",  points |-> (0..3) \cup (97..105), combs |-> {50, 51}, bound |-> 2],
+    [name |-> "wide",  points |-> {0, 1, 2, 10, 40, 59, 60, 61, 62, 63, 64, 70, 120}, combs |-> {1}, bound |-> 2] }
+ModesThorough ==
+  { [name |-> "dense", points |-> 0..10, combs |-> {0}, bound |-> 0],
+    [name |-> "comb",  points |-> (0..3) \cup (95..107), combs |-> 48..52, bound |-> 2],
+    [name |-> "wide",  points |-> {0, 1, 2, 10, 40, 59, 60, 61, 62, 63, 64, 70, 120}, combs |-> {0, 1}, bound |-> 3] }
+
+AllPoints == UNION {md.points : md \in Modes}
+ModeDef(nm) == CHOOSE md \in Modes : md.name = nm
+
+VARIABLES n, mode      \* Adds so far (when bounded); name of the mode
 
 Proj(p, rs) == [prefix |-> p, ranges |-> rs, holes |-> HaveHoles(rs),
                 ack |-> BuildAck(p, rs), nack |-> BuildNack(p, rs)]
 
 Comb(c) == [i \in 1..c |-> <<2 * i, 2 * i>>]
 
-Init == \E c \in Combs :
+Init == \E md \in Modes : \E c \in md.combs :
+          /\ mode = md.name
           /\ prefix = 0 /\ ranges = Comb(c) /\ S = {2 * i : i \in 1..c}
           /\ n = 0
 
 AddRangeOp(f, t) ==
-  /\ (Bound = 0 \/ n < Bound)
+  LET md == ModeDef(mode) IN
+  /\ f \in md.points /\ t \in md.points
+  /\ (md.bound = 0 \/ n < md.bound)
   /\ Add(f, t)
-  /\ n' = (IF Bound = 0 THEN n ELSE n + 1)
+  /\ n' = (IF md.bound = 0 THEN n ELSE n + 1)
+  /\ UNCHANGED mode
 
 Emit == PrintT(ToJson(<<"@@", Proj(prefix, ranges)>>))
 
-Next == \E f \in Points, t \in Points : AddRangeOp(f, t)
+Next == \E f \in AllPoints, t \in AllPoints : AddRangeOp(f, t)
 =============================================================================
